@@ -167,6 +167,18 @@ func (ec *evalCtx) specCall(call *ast.CallExpr) Value {
 			flat(arg(i))
 		}
 		return App("uf:"+nm, SStr, leaves...)
+	case "header", "headers":
+		// header(h, "Key"): first value of the (canonicalised) key in the header map h; headers(h): the whole view
+		mv, ok := arg(0).(*MapV)
+		if !ok {
+			panic(unsupported("%s: not a header map", name))
+		}
+		hv := scalar(ec.headerLval(mv).get())
+		if name == "headers" {
+			return hv
+		}
+		need(2)
+		return Select(hv, canonHeaderKey(scalar(arg(1))))
 	case "unquoted":
 		// unquoted(x): the string strconv.Unquote(x) returns
 		need(1)
